@@ -75,13 +75,14 @@ Section EvalSolveAll.
 
   (* ---- 2. solve() with the default range ---- *)
   Lemma solve_P_default_fst (prog : program) d o (span : list L) s :
-    min_iter o <= max_iter o -> SolveAllFacts.locate_ok L locate span ->
+    min_iter o <= max_iter o ->
     length (status s) = length span -> (lags d + leads d < length span)%nat ->
     fst (solve_P prog d o span None None s) = fst (solve_seq_M prog d o (default_positions d (length (status s))) s).
   Proof.
-    intros Hmm Hok Hn Hroom. unfold solve_P.
-    rewrite (SolveAllFacts.solve_eq_fold num sub absf ltb isfin zero _ _ _ L locate d o span None None s
-               (lags d) (length span - 1 - leads d) Hmm Hok).
+    intros Hmm Hn Hroom. unfold solve_P.
+    (* the defaults are positions: no label is looked up (fix 7cd6323), so nothing is asked of `locate` *)
+    rewrite (SolveAllFacts.solve_eq_fold_given num sub absf ltb isfin zero _ _ _ L locate d o span None None s
+               (lags d) (length span - 1 - leads d) Hmm I I).
     - pose proof (run_periods_fst prog d o (SolveAllFacts.periods L span (lags d) (length span - 1 - leads d)) s []) as H.
       unfold run_periods_P in H.
       destruct (run_periods num sub absf ltb isfin zero (ev_of prog) (hook_pass num) (hook_pass num) L d o
@@ -95,7 +96,7 @@ Section EvalSolveAll.
 
   (* THE PROPERTY'S FRAME CLAUSE FOR solve(): no start, no end, an n-period span with room for the lags and leads *)
   Theorem solve_P_default_range_frame (prog : program) d o (span : list L) s :
-    min_iter o <= max_iter o -> SolveAllFacts.locate_ok L locate span ->
+    min_iter o <= max_iter o ->
     length (status s) = length span -> (lags d + leads d < length span)%nat ->
     wf_vals (length (status s)) (vals_of s) ->
     (prog_lags num prog <= lags d)%nat -> (prog_leads num prog <= leads d)%nat ->
@@ -109,8 +110,8 @@ Section EvalSolveAll.
     (forall q, (q < lags d)%nat \/ (n <= q + leads d)%nat ->
                nth_error (status s') q = nth_error (status s) q /\ nth_error (iters s') q = nth_error (iters s) q).
   Proof.
-    intros Hmm Hok Hn Hroom Hwf Hlag Hlead. cbv zeta.
-    rewrite (solve_P_default_fst prog d o span s Hmm Hok Hn Hroom).
+    intros Hmm Hn Hroom Hwf Hlag Hlead. cbv zeta.
+    rewrite (solve_P_default_fst prog d o span s Hmm Hn Hroom).
     apply (solve_default_range_frame num add sub mul div pow neg absf ltb leb eqb zero fun1 fun2 flagged isfin prog d o s Hwf Hlag Hlead).
   Qed.
 
